@@ -115,7 +115,7 @@ def _step0_remove(case):
 def classify(case, obs, why):
     # D43: a new doer whose enter (inside extend()) removes/closes the very scheduler it is being added to
     # is left suspended in the dead scheduler's deque: entered, never exited
-    if _step0_remove(case) and ("life" in why or "not exited" in why):
+    if _step0_remove(case) and not case.get("enter_effects") and ("life" in why or "not exited" in why):
         tr = obs["trace"]
         bad = [i for i in (int(k) for k in case["defs"])
                if any(not sc.wf_life(l) for l in sc.split_lives(sc.lives(tr, i)))]
